@@ -16,7 +16,7 @@ func init() { Registry["C06"] = C06 }
 // offered expressions by type tag
 type c06Offer struct {
 	typ, spelling, src string
-	isVar             bool
+	isVar              bool
 }
 
 func c06Offers() []c06Offer {
@@ -82,9 +82,9 @@ type c06Pos struct {
 	decl    string // top-level declarations (may contain %H), placed after the prelude
 	stmt    string // statement(s) placed in the context (may contain %H)
 	accept  []string
-	varOnly bool                      // the hole must be a variable name
-	skip    func(o c06Offer) bool     // (position, offered) pairs the property leaves unspecified
-	noCtx   bool                      // do not wrap into contexts (position brings its own structure)
+	varOnly bool                  // the hole must be a variable name
+	skip    func(o c06Offer) bool // (position, offered) pairs the property leaves unspecified
+	noCtx   bool                  // do not wrap into contexts (position brings its own structure)
 }
 
 func c06Positions() []c06Pos {
@@ -140,6 +140,8 @@ func c06Positions() []c06Pos {
 	add(c06Pos{name: "assign-grouped:int", stmt: "vi = (%H)", accept: []string{"int"}})
 	add(c06Pos{name: "redefine-existing-int-with-new", stmt: "vi, dnew := %H, 1\nprint(dnew)", accept: []string{"int"}, noCtx: true})
 	add(c06Pos{name: "redefine-existing-string-with-new", stmt: "dnew, vs := 1, %H\nprint(dnew)", accept: []string{"string"}, noCtx: true})
+	add(c06Pos{name: "redefine-existing-string-from-call", stmt: "vs, dnew := %H\nprint(dnew)", accept: nil, noCtx: true})
+	add(c06Pos{name: "redefine-existing-ints-from-call", stmt: "vi, dnew := %H\nprint(dnew)", accept: []string{"multi"}, noCtx: true})
 	add(c06Pos{name: "define-multi.first", stmt: "d1, d2 := %H, 1\nprint(d2)", accept: single})
 	add(c06Pos{name: "define-multi.second", stmt: "d1, d2 := 1, %H\nprint(d1)", accept: single})
 	add(c06Pos{name: "define-multi.from-call", stmt: "d1, d2 := %H\nprint(len(vs))", accept: []string{"multi"}})
